@@ -35,7 +35,9 @@ def forbiddenShapes : List String :=
    "tvol_ptrarr_elem_from_raw", "tvol_deref_store_raw", "tvol_index_store_raw", "invoke_raw_array_arg",
    "invoke_raw_string_arg", "invoke_app_pointer_wrong_sandbox", "internal_factory_raw_ptr",
    "internal_factory_raw_fn", "tagged_ctor_raw_ptr", "tainted_raw_value_ref_write", "tvol_sandbox_value_ref_write",
-   "tvol_default_ctor", "tvol_copy_ctor", "tainted_reinterpret_from_raw"]
+   "tvol_default_ctor", "tvol_copy_ctor", "tainted_reinterpret_from_raw",
+   "reinterpret_cast_int_to_ptr", "reinterpret_cast_tvol_int_to_ptr", "static_cast_int_to_ptr", "const_cast_int_to_ptr",
+   "tainted_ptr_init_from_tainted_int"]
 
 def accepts (name : String) : Option Bool := (sinks.find? fun r => r.1 == name).map fun r => r.2.2
 
